@@ -112,15 +112,25 @@ def merge(ts):
                  [it[0] for it in items])
 
 
-def associate(t1, t2, max_diff, offset_2=0.0):
+class AssociationViolation(Exception):
+    """the association adopted from the code under test contradicts what the
+    association property (C05) states"""
+
+
+def associate(t1, t2, max_diff, offset_2=0.0, resolver=None):
     """-> (t1', t2').  The trajectory with fewer poses drives (t2 on equal
-    length); each of its poses takes its nearest counterpart within max_diff;
-    a contested counterpart goes to the closest contender."""
+    length); each of its poses takes its nearest counterpart within max_diff.
+    Which contender keeps a *contested* counterpart is left open by the
+    property: without a resolver such a case is Ambiguous; with one, the
+    resolver's pairs (evo's own primitive on the same stamps) are adopted
+    after they passed the predicate that the property does state."""
     s1 = t1.stamps
     s2 = [x + offset_2 for x in t2.stamps]
     first_drives = len(s1) < len(s2)
     drv, oth = (s1, s2) if first_drives else (s2, s1)
     best = {}
+    nearest = {}
+    contested = False
     for i, s in enumerate(drv):
         d = [abs(c - s) for c in oth]
         m = min(d)
@@ -130,12 +140,38 @@ def associate(t1, t2, max_diff, offset_2=0.0):
         j = d.index(m)
         if m > max_diff:
             continue
+        nearest[i] = j
         if j in best:
-            # which contender keeps a contested counterpart is left open by
-            # the property; fixtures are built to avoid it
-            raise Ambiguous("contested counterpart")
+            contested = True
+            continue
         best[j] = (m, i)
-    pairs = sorted((i, j) for j, (_, i) in best.items())
+    if contested:
+        if resolver is None:
+            raise Ambiguous("contested counterpart")
+        got = [(int(a), int(b)) for a, b in resolver(
+            list(t1.stamps), list(t2.stamps), max_diff, offset_2)]
+        # as (driver index, other index)
+        got = [(a, b) if first_drives else (b, a) for a, b in got]
+        users = {}
+        for i, j in nearest.items():
+            users.setdefault(j, []).append(i)
+        bad = []
+        for (i, j) in got:
+            if nearest.get(i) != j:
+                bad.append("pair (%d,%d) is not a pose with its nearest "
+                           "counterpart within max_diff" % (i, j))
+        if any(b[0] <= a[0] or b[1] <= a[1] for a, b in zip(got, got[1:])):
+            bad.append("a pose is used twice / time order is not increasing: "
+                       "%s" % got)
+        for j, us in users.items():
+            if len(us) == 1 and (us[0], j) not in got:
+                bad.append("pose %d is not paired with its uncontested "
+                           "nearest counterpart %d" % (us[0], j))
+        if bad:
+            raise AssociationViolation("; ".join(bad[:2]))
+        pairs = sorted(got)
+    else:
+        pairs = sorted((i, j) for j, (_, i) in best.items())
     if not pairs:
         raise Refusal("no-association")
     di = [i for i, _ in pairs]
